@@ -25,10 +25,18 @@ THEOREMS = [
     "TornadoModel.C08.client_agrees_with_spec",
     "TornadoModel.C08.client_agrees_with_spec_gz",
     "TornadoModel.C08.interim_sticky_refuted",
+    "TornadoModel.C08.gzChunk_le",
+    "TornadoModel.C08.deliver_gz_le",
+    "TornadoModel.C08.pieces_ok",
+    "TornadoModel.C08.pieces_machine",
+    "TornadoModel.C08.streamed_le_limit",
 ]
 TRUSTED = [
     "zlib/gzip are opaque: the streaming decompressor's output for the whole encoded body is an input of the model "
     "(computed with real zlib by the harness, classified complete/trunc/trail/bad)",
+    "for the streamed deliveries zlib is opaque call by call: what each decompressor.decompress(data, chunk_size) call of "
+    "_GzipMessageDelegate.data_received's loop returns (output length, unconsumed_tail empty or not, zlib.error) is an "
+    "input of the model (C08 streamed), computed with real zlib at the network chunks the model predicts",
     "IOStream read primitives (read_until_regex/read_until(max_bytes)/read_bytes(partial)/read_until_close) as modelled "
     "in C08/Model.lean `step`; exercised through the real BaseIOStream over FakeStream",
     "HTTPHeaders operations through the C06 model",
@@ -40,12 +48,21 @@ ASSUMPTIONS = [
     "through that timer (recorded in docs/C08.md)",
     "the server sends all its bytes and then either closes (EOF) or stays silent; resets mid-stream are C13's subject",
     "error *kinds* are compared coarsely (closed / timeout / quiet; with decompress_response only error vs success, "
-    "because a corrupt gzip body fails at its first bad chunk); streamed chunks are compared after joining",
+    "because a corrupt gzip body fails at its first bad chunk); the streaming_callback deliveries are compared one by "
+    "one by length (also those of fetches that fail afterwards), their content after joining (successful fetches)",
+    "the zlib oracle of a body is a function of the body alone except in one corner, where the harness computes it from "
+    "the model's network chunks: more than chunk_size bytes of output from one network chunk followed, in the same "
+    "network chunk, by the end of the member and trailing bytes makes the decompress loop raise 'no progress' "
+    "(status bad) instead of dropping the trailing bytes (status trail); the Spec rejects both",
     "HTTP leniencies of the code are part of the strict reader: bare LF, obs-fold, CRs before the LF of the status line",
 ]
 RULE = ("grammar of HTTP/1.x responses (status lines, header sets, CL/chunked/close framing, 1xx, 204/304, HEAD, gzip "
         "complete/truncated/multi-member/corrupt) + byte mutations, each x several segmentations x {streaming, "
-        "decompress, max_body_size near the body length}; non-trivial = the header block parses and a body phase or "
+        "decompress, max_body_size near the body length}; plus gzip bodies that are small on the wire and large "
+        "decompressed (120 B .. 140 kB, ratio 3 .. 400, complete/multi-member/truncated/corrupt; Content-Length, chunked "
+        "in pieces of 1/7/64/300/all, close-delimited) x max_body_size at wire length -1..+5, decompressed length -1..+1, "
+        "in between, chunk_size -1..+1 x segmentations {whole, head|body, 7, 200, byte by byte, random; thorough: every "
+        "cut point} x {streaming_callback, buffered}; non-trivial = the header block parses and a body phase or "
         "a framing rejection is reached; distinct by canonical JSON")
 EXHAUSTIVE = {"quick": False, "thorough": False}
 CLAUSES = {
@@ -59,8 +76,12 @@ CLAUSES = {
         "ZOk on the body handed to zlib); the side conditions are necessary: gzip_strict_refuted (truncated member accepted) and "
         "interim_sticky_refuted (1xx Content-Encoding sticky) -- both known findings; with client_segmentation_independent this "
         "covers every segmentation; Spec.readAll is also the oracle on every case",
-    "body delivered (after decompression) never exceeds max_body_size": "client_body_le_limit (all framings, all segmentations; "
-                                                                        "streamed prefixes of failed fetches: tie only)",
+    "body delivered (after decompression) never exceeds max_body_size":
+        "client_body_le_limit (the body of a successful fetch: all framings, all segmentations) + streamed_le_limit (the bytes "
+        "handed to streaming_callback so far, at every delivery, for every stream / segmentation / zlib behaviour, whether the "
+        "fetch then succeeds or fails; via pieces_ok, deliver_gz_le, gzChunk_le; pieces_machine: the recording machine is the "
+        "machine of the other theorems); the oracle states it on every case for the buffered body and for every prefix of "
+        "the streaming_callback deliveries",
     "1xx interim, 204/304, HEAD": "covered by client_agrees_with_spec / client_agrees_with_spec_gz (Spec.read skips 1xx, "
                                   "204/304/HEAD have no body) and by the tie",
 }
@@ -214,6 +235,107 @@ def _gen_stream(rng):
     return stream, cfg
 
 
+# ---- gzip bodies that are small on the wire and large once decompressed ("decompression bombs"): the region where
+# the Content-Length / chunk-size limit checks pass and only the decompressed-size check of _GzipMessageDelegate
+# stands between the server and the application
+WORDS = [b"alpha", b"beta", b"gamma", b"delta", b"tornado", b"stream", b"chunk", b"\r\n", b" ", b"0", b"limit"]
+BOMB_SIZES_SMALL = [120, 300, 1000, 1001, 1024, 3000, 8000, 20000]
+BOMB_SIZES_BIG = [64000, 65535, 65536, 65537, 70000, 131072, 140000]     # around / beyond chunk_size: several
+                                                                          # decompress() blocks per network chunk
+
+
+def _bomb_plain(rng, size):
+    k = rng.random()
+    if k < 0.4:
+        return (b"0123456789abcdef" * (size // 16 + 1))[:size]
+    if k < 0.6:
+        return bytes([rng.choice(b"\0ax")]) * size
+    out = bytearray()          # moderately compressible (ratio 3-6): the output grows steadily with the input
+    while len(out) < size:
+        out += rng.choice(WORDS)
+    return bytes(out[:size])
+
+
+def _gen_bomb(rng, big=False):
+    """-> (stream bytes, cfg dict, limits): a gzip response whose body is much larger decompressed than on the wire,
+    and the max_body_size values around every decision point (wire length, decompressed length, in between)"""
+    size = rng.choice(BOMB_SIZES_BIG if big else BOMB_SIZES_SMALL)
+    plain = _bomb_plain(rng, size)
+    g = _gz(plain, rng.choice([1, 6, 9]))
+    full = len(g)
+    mode = rng.choice(["ok"] * 12 + ["multi", "multi", "trunc", "trunc8", "junk", "crc", "corrupt"])
+    if mode == "multi":
+        g = g + _gz(_bomb_plain(rng, rng.choice([1, 50, size])))
+    elif mode == "trunc":
+        g = g[:rng.randrange(10, len(g))]
+    elif mode == "trunc8":
+        g = g[:-rng.randint(1, 8)]
+    elif mode == "junk":
+        g = g + b"JUNK"[:rng.randint(1, 4)]
+    elif mode == "crc":
+        g = g[:-8] + bytes([g[-8] ^ 1]) + g[-7:]
+    elif mode == "corrupt":
+        i = rng.randrange(10, len(g))
+        g = g[:i] + bytes([g[i] ^ (1 << rng.randrange(8))]) + g[i + 1:]
+    hdrs = [rng.choice(["Content-Encoding: gzip"] * 6 + ["content-encoding: GZip", "Content-Encoding: x-gzip"])]
+    framing = rng.choice(["cl"] * 4 + ["chunked"] * 4 + ["close"] * 2)
+    wire_body = g
+    if framing == "cl":
+        hdrs.append("Content-Length: %d" % len(g))
+    elif framing == "chunked":
+        hdrs.append("Transfer-Encoding: chunked")
+        step = rng.choice([len(g), len(g), 300, 64, 7, 1])
+        wire_body = b"".join(b"%x\r\n%s\r\n" % (len(g[i:i + step]), g[i:i + step]) for i in range(0, len(g), step)) + b"0\r\n\r\n"
+    if rng.random() < 0.3:
+        hdrs.insert(rng.randint(0, len(hdrs)), rng.choice(EXTRA_HEADERS[:6]))
+    stream = ("HTTP/1.1 200 OK\r\n" + "".join(h + "\r\n" for h in hdrs) + "\r\n").encode("latin-1") + wire_body
+    if rng.random() < 0.1:
+        stream = rng.choice([b"HTTP/1.1 100 Continue\r\n\r\n", b"HTTP/1.1 103 Early\r\nLink: </x>\r\n\r\n"]) + stream
+    cfg = {"head": rng.random() < 0.03, "decompress": rng.random() < 0.93, "streaming": True, "max_body": None,
+           "eof": framing == "close" or rng.random() < 0.8}
+    c = len(g)
+    limits = [c - 1, c, c + 1, c + 5, full, len(wire_body), size - 1, size, size + 1, size // 2, (c + size) // 2,
+              2 * c, 1000, CHUNK_SIZE - 1, CHUNK_SIZE, CHUNK_SIZE + 1, size - CHUNK_SIZE, 0, 1, None]
+    return stream, cfg, [l for l in limits if l is None or l >= 0]
+
+
+def _bomb_segmentations(rng, s, tier):
+    """whole; head | body; fixed sizes 7 / 200 (the seeded demo's); byte by byte; random cuts"""
+    he = s.find(b"\r\n\r\n", s.find(b"Content-Encoding") if b"Content-Encoding" in s else 0) + 4
+    out = [[s], [s[:he], s[he:]]]
+    for n in (7, 200, rng.choice([1, 2, 3, 13, 50, 100, 300])):
+        if len(s) // n <= 700:
+            out.append([s[i:i + n] for i in range(0, len(s), n)])
+    out.append([s[:he]] + [s[i:i + 1] for i in range(he, min(len(s), he + 400))] + ([s[he + 400:]] if len(s) > he + 400 else []))
+    out += _segmentations(rng, s, 3)[2:]
+    out = [[g for g in segs if g] for segs in out]
+    if tier == "thorough":
+        return out
+    return out[:2] + rng.sample(out[2:], 2)
+
+
+def _bomb_cases(rng, tier, n, nbig):
+    cases = []
+    for i in range(n + nbig):
+        stream, cfg, limits = _gen_bomb(rng, big=i >= n)
+        lims = limits if (tier == "thorough" and i % 10 == 0 and i < n) else rng.sample(limits[:12], 2) + [rng.choice(limits)]
+        segl = _bomb_segmentations(rng, stream, tier)
+        if i >= n and tier != "thorough":
+            # the large bodies cost ~0.2 s of driver time per case (the inflated body travels in hex): a handful only
+            lims, segl = lims[1:], [segl[0], rng.choice(segl[1:])]
+        if tier == "thorough" and i % 40 == 1 and len(stream) <= 400:
+            segl = [[stream[:c], stream[c:]] for c in range(1, len(stream))]       # every cut point
+        for lim in lims:
+            for j, segs in enumerate(segl if lim is lims[0] or tier == "thorough" else [segl[0], rng.choice(segl[1:])]):
+                c = dict(cfg, max_body=lim)
+                # streaming_callback installed in most cases (the deliveries are observable only there); the same
+                # stream buffered for the first segmentation
+                if j == 0 and lim is lims[0]:
+                    cases.append(_mk(segs, dict(c, streaming=False)))
+                cases.append(_mk(segs, c))
+    return cases
+
+
 MUT_BYTES = [13, 10, 32, 9, 48, 53, 58, 44, 65, 102, 103, 0, 255, 59]
 
 
@@ -289,6 +411,8 @@ def gen_cases(rng, tier):
             if j > 0 and rng.random() < 0.3:
                 c["streaming"] = not c["streaming"]
             cases.append(_mk(segs, c))
+    nb, nbig = {"quick": (24, 2), "thorough": (1200, 10), "search": (60, 4)}[tier]
+    cases += _bomb_cases(rng, tier, nb, nbig)
     annotate(cases)
     cases += list(_status_lines(rng, {"quick": 300, "thorough": 20000, "search": 100}[tier]))
     return cases
@@ -313,23 +437,65 @@ def zlib_oracle(raw):
     return out, "complete"
 
 
+CHUNK_SIZE = 65536     # HTTP1ConnectionParameters.chunk_size: max_length of every decompress() call
+
+
+def zlib_calls(pieces):
+    """the zlib oracle of the streaming path: for the successive non-empty network chunks `pieces` that reach one
+    GzipDecompressor, what each `decompress(data, chunk_size)` call of the `while compressed_data:` loop returns:
+    [len(output), unconsumed_tail non-empty] or "E" (zlib.error).  One entry per chunk, up to the first error."""
+    d = zlib.decompressobj(16 + zlib.MAX_WBITS)
+    tbl = []
+    for piece in pieces:
+        data, calls, stop = piece, [], False
+        while data:
+            try:
+                out = d.decompress(data, CHUNK_SIZE)
+            except zlib.error:
+                calls.append("E")
+                stop = True
+                break
+            data = d.unconsumed_tail
+            calls.append([len(out), bool(data)])
+            if not out:
+                stop = bool(data)
+                break
+        tbl.append(calls)
+        if stop:
+            break
+    return tbl
+
+
 def annotate(cases):
-    """fill case['gz'] = [raw, out, status]: the graph of the zlib oracle at the body the model hands to it"""
+    """fill case['gz'] = [raw, out, status]: the graph of the zlib oracle at the body the model hands to it, and
+    case['zt'] = the zlib call table (zlib_calls) at the data_received calls the model predicts"""
     from core import build
     idx = [i for i, c in enumerate(cases) if c.get("kind") == "resp" and c["decompress"]]
     if not idx:
         return cases
-    reqs = [line(ID, "raw", _cfgv(cases[i]), [bytes.fromhex(g) for g in cases[i]["segs"]], atom(bool(cases[i]["eof"])))
-            for i in idx]
+    reqs = []
+    for i in idx:
+        a = (_cfgv(cases[i]), [bytes.fromhex(g) for g in cases[i]["segs"]], atom(bool(cases[i]["eof"])))
+        reqs += [line(ID, "raw", *a), line(ID, "pieces", *a)]
     replies = build.Driver().ask(reqs)
-    for i, r in zip(idx, replies):
-        st, vals = parse_reply(r)
-        assert st == "ok", r
+    for k, i in enumerate(idx):
+        st, vals = parse_reply(replies[2 * k + 1])
+        assert st == "ok", replies[2 * k + 1]
+        zt = cases[i]["zt"] = zlib_calls([p for g, p in vals[0] if str(g) == "T" and p])
+        st, vals = parse_reply(replies[2 * k])
+        assert st == "ok", replies[2 * k]
         raw = vals[0]
         if raw is None:
             cases[i]["gz"] = None
         else:
             out, status = zlib_oracle(raw)
+            if zt and zt[-1] and zt[-1][-1] == [0, True]:
+                # the one place where what the decompressor does with `raw` depends on how it arrives: when a
+                # decompress() call stopped at max_length (chunk_size bytes of output from ONE network chunk) and the
+                # next call reaches the end of the member, CPython leaves the bytes after the member in
+                # unconsumed_tail as well as in unused_data; the loop feeds them again, gets nothing, and raises
+                # "unconsumed gzip data without making progress" instead of dropping them (docs/C08.md)
+                out, status = b"", "bad"
             cases[i]["gz"] = [raw.hex(), out.hex(), status]
     return cases
 
@@ -365,9 +531,12 @@ def run_impl(case):
             return s
         cl.tcp_client.connect = connect
         chunks = []
+
+        def on_chunk(b):
+            chunks.append(bytes(b))
         req = HTTPRequest("http://h.test/p", method="HEAD" if case["head"] else "GET",
                           decompress_response=case["decompress"],
-                          streaming_callback=(chunks.append if case["streaming"] else None),
+                          streaming_callback=(on_chunk if case["streaming"] else None),
                           request_timeout=20.0, connect_timeout=20.0, follow_redirects=False)
         fut = cl.fetch(req, raise_error=False)
         lp.drain()
@@ -398,6 +567,8 @@ def run_impl(case):
                 out["res"] = ["err", _kind(e)]
         out["delivered"] = len(b"".join(chunks)) if case["streaming"] else (len(r.body) if out["res"][0] == "ok" else 0)
         out["nchunks"] = len(chunks)
+        # every streaming_callback delivery, in order (also those of a fetch that failed afterwards)
+        out["deliveries"] = [len(c) for c in chunks]
         lp.drain()
         out["delivered_after"] = len(b"".join(chunks)) if case["streaming"] else out["delivered"]
         try:
@@ -413,10 +584,24 @@ def _gzv(case):
     return None if not g else [bytes.fromhex(g[0]), bytes.fromhex(g[1]), atom(g[2])]
 
 
+def _ztv(case):
+    return [[atom("E") if c == "E" else [c[0], atom(bool(c[1]))] for c in calls] for calls in case.get("zt") or []]
+
+
+def _streamed_modelled(case):
+    """the deliveries are predicted (C08 streamed) whenever they are observable: a streaming_callback is installed;
+    with decompress_response the zlib call table must have been computed (annotate)"""
+    return case["streaming"] and (not case["decompress"] or case.get("zt") is not None)
+
+
 def model_requests(case, impl):
     if case["kind"] == "status":
         return [line(ID, "status", case["line"])]
-    return [line(ID, "run", _cfgv(case), [bytes.fromhex(g) for g in case["segs"]], atom(bool(case["eof"])), _gzv(case))]
+    a = (_cfgv(case), [bytes.fromhex(g) for g in case["segs"]], atom(bool(case["eof"])))
+    out = [line(ID, "run", *a, _gzv(case))]
+    if _streamed_modelled(case):
+        out.append(line(ID, "streamed", *a, _ztv(case)))
+    return out
 
 
 def spec_requests(case, impl):
@@ -450,12 +635,19 @@ def model_result(case, replies):
     if case["kind"] == "status":
         st, vals = parse_reply(replies[0])
         return "REJECT" if isinstance(vals[0], Atom) else list(vals[0])
-    return _coarse(case, _res(replies[0]))
+    res = _coarse(case, _res(replies[0]))
+    if _streamed_modelled(case):
+        st, vals = parse_reply(replies[1])
+        assert st == "ok", replies[1]
+        return [res, list(vals[0])]
+    return res
 
 
 def impl_view(case, impl):
     if case["kind"] == "status":
         return impl["status"]
+    if _streamed_modelled(case):
+        return [_coarse(case, impl["res"]), impl["deliveries"]]
     return _coarse(case, impl["res"])
 
 
@@ -468,6 +660,17 @@ def spec_violation(case, impl, replies):
     limit = DEFAULT_MAX if case["max_body"] is None else case["max_body"]
     if got == ["err", "HANG"]:
         return "hang: the fetch never completes"
+    # "The body delivered (after decompression) never exceeds max_body_size" -- buffered: the body of the response
+    # returned; streaming: the running total of what streaming_callback has been handed, at every delivery, whether
+    # or not the fetch fails afterwards (what was handed over cannot be taken back by the error)
+    if case["streaming"]:
+        total = 0
+        for k, n in enumerate(impl["deliveries"]):
+            total += n
+            if total > limit:
+                return ("over-limit: %d body bytes delivered with max_body_size=%d (streaming_callback call %d of %d; "
+                        "the fetch then %s)" % (sum(impl["deliveries"]), limit, k + 1, len(impl["deliveries"]),
+                                                "succeeded" if got[0] == "ok" else "failed with " + str(got[1])))
     if impl["delivered_after"] > limit or impl["delivered"] > limit:
         return "over-limit: %d body bytes delivered with max_body_size=%d" % (impl["delivered_after"], limit)
     if case["streaming"] and impl.get("body_attr_len"):
@@ -529,6 +732,22 @@ def stats(case, impl):
            "segs:%s" % (1 if len(case["segs"]) == 1 else ("2-7" if len(case["segs"]) < 8 else "8+"))]
     if case.get("gz"):
         out.append("gz:" + case["gz"][2])
+    if case.get("zt"):
+        nout = sum(c[0] for calls in case["zt"] for c in calls if c != "E")
+        limit = DEFAULT_MAX if case["max_body"] is None else case["max_body"]
+        out.append("inflate:" + ("<=limit" if nout <= limit else ">limit"))
+        nin = len(case["gz"][0]) // 2 if case.get("gz") else len(_stream(case))
+        if nin <= limit < nout:
+            # the region where only the decompressed-size check protects the application
+            out.append("region:encoded<=limit<inflated" + ("/streaming" if case["streaming"] else "/buffered"))
+        if nout > 4 * max(1, nin):
+            out.append("bomb:ratio>4")
+        if any(len(calls) > 1 for calls in case["zt"]):
+            out.append("zlib:several-blocks-per-chunk")
+    if case["streaming"]:
+        out.append("deliveries:%s" % (0 if not impl["deliveries"] else (1 if len(impl["deliveries"]) == 1 else "2+")))
+        if impl["res"][0] != "ok" and impl["deliveries"]:
+            out.append("delivered-then-failed")
     for k in ("head", "decompress", "streaming"):
         if case[k]:
             out.append("cfg:" + k)
